@@ -64,7 +64,7 @@ def generate(master, index, tier):
                 dmg, tag = W.damage_detectable(rng, bytes.fromhex(it[1]))
                 it = ["dmg", dmg.hex(), tag + "/" + it[2]]
             items.append(it)
-    if index % 50 == 7:
+    if index % 100 == 7:
         # deep damage history: > 1000 consecutive damaged frames, then a good one
         f = wire.rtcm_frame(wire.rtcm_payload(rng.choice((1005, 999, 1077)), rng.getrandbits(40), rng.choice((2, 5, 8))))
         items = []
